@@ -138,6 +138,87 @@ theorem C15_cex_all_empty_entries_removed :
     keep ∉ (purgeCleanup .allEmpty ⟨[keep, gone]⟩ "old").apps ∧ keep ∈ (purgeCleanup .own ⟨[keep, gone]⟩ "old").apps := by
   decide
 
+/-! ## the purged app's own entry goes -/
+
+/-- what `AppSignature.is_empty()` looks at: the model entries only (the source), or also the recorded
+migrations (a variant) -/
+inductive EmptyTest where
+  | models | modelsAndMigrations
+  deriving DecidableEq, Repr
+
+def EmptyTest.holds : EmptyTest → AppSig → Bool
+  | .models, a => a.models.isEmpty
+  | .modelsAndMigrations, a => a.models.isEmpty && (a.appliedMigrations.getD []).isEmpty
+
+/-- the `own` clean-up with the emptiness test as a parameter -/
+def purgeOwn (t : EmptyTest) (p : ProjectSig) (label : String) : ProjectSig :=
+  match p.apps.find? (fun a => a.id == label) with
+  | some a => if t.holds a then p.removeApp a.id else p
+  | none => p
+
+theorem purgeOwn_models (p : ProjectSig) (label : String) : purgeOwn .models p label = purgeCleanup .own p label := rfl
+
+/-- the purge of an app: its models are deleted (`DeleteApplication`: the entry keeps its id, its upgrade method and
+its recorded migrations, and has no models left), then the clean-up runs -/
+def purgeApp (t : EmptyTest) (p : ProjectSig) (label : String) : ProjectSig :=
+  match p.apps.find? (fun a => a.id == label) with
+  | some a => purgeOwn t (p.putApp { a with models := [] }) label
+  | none => p
+
+theorem purgeOwn_removes (p : ProjectSig) (label : String)
+    (hempty : ∀ b ∈ p.apps, b.id = label → b.models = []) :
+    ∀ b ∈ (purgeOwn .models p label).apps, b.id ≠ label := by
+  intro b hb
+  unfold purgeOwn at hb
+  cases hf : p.apps.find? (fun a => a.id == label) with
+  | none =>
+    rw [hf] at hb
+    have := List.find?_eq_none.mp hf b hb
+    simpa using this
+  | some a =>
+    rw [hf] at hb
+    have ha : a.id = label := by simpa using List.find?_some hf
+    have hm : a.models = [] := hempty a (List.mem_of_find?_eq_some hf) ha
+    simp only [EmptyTest.holds, hm, List.isEmpty_nil, if_true, ProjectSig.removeApp, List.mem_filter,
+      Bool.not_eq_true', beq_eq_false_iff_ne, ne_eq] at hb
+    rw [ha] at hb
+    exact hb.2
+
+/-- **after a purge no entry of the purged app is left**, whatever the app recorded (upgrade method, applied
+migrations) and whatever else the project contains - when emptiness looks at the models only -/
+theorem C15_purge_removes_own_entry (p : ProjectSig) (label : String) :
+    ∀ b ∈ (purgeApp .models p label).apps, b.id ≠ label := by
+  unfold purgeApp
+  cases hf : p.apps.find? (fun a => a.id == label) with
+  | none =>
+    intro b hb
+    have := List.find?_eq_none.mp hf b hb
+    simpa using this
+  | some a =>
+    have ha : a.id = label := by simpa using List.find?_some hf
+    apply purgeOwn_removes
+    intro b hb hid
+    simp only [ProjectSig.putApp, List.mem_map] at hb
+    obtain ⟨c, _, hc⟩ := hb
+    by_cases h : (c.id == a.id) = true
+    · simp only [h, if_true] at hc
+      rw [← hc]
+    · simp only [h, Bool.false_eq_true, if_false] at hc
+      rw [hc] at h
+      rw [hid, ha] at h
+      simp at h
+
+/-- the emptiness test of the current source looks at the models only (read by the translator on every run) -/
+theorem C15_source_is_empty : DEvo.Generated.appSigIsEmpty = "models" := by decide
+
+/-- an emptiness test that also wants the recorded migrations gone leaves the entry of a stale app that had been
+handed over to Django migrations behind -/
+theorem C15_cex_entry_with_migrations_stays :
+    let wiki : AppSig := { id := "wiki", legacy := "wiki", upgradeMethod := some "migrations",
+                           appliedMigrations := some ["0001_initial"], models := [] }
+    (purgeApp .modelsAndMigrations ⟨[wiki]⟩ "wiki").apps = [wiki] ∧ (purgeApp .models ⟨[wiki]⟩ "wiki").apps = [] := by
+  decide
+
 /-! ## which stored apps count as deleted (what a purge may take) -/
 
 /-- `ProjectSignature.diff`: a stored app is deleted when the current signature has no counterpart for its id -
